@@ -9,7 +9,7 @@ MCInit == \E c \in Confs : Init0(c)
 MCSpec == MCInit /\ [][Next]_vars /\ WF_vars(Progress) /\ Fair
 \* negative: a root task that is not gated by the started flag issues requests before the startup handlers have finished
 EarlyApi == /\ ~started /\ apis' = apis + 1
-            /\ UNCHANGED <<conf, sc, hs, started, ready, rt, watch, busy, rec, daemons, trigger, runner, sfail, cran, lateD>>
+            /\ UNCHANGED <<conf, sc, hs, started, ready, rt, watch, busy, rec, daemons, trigger, runner, sfail, cran, lateD, orphans>>
 NegSpec == MCInit /\ [][Next \/ EarlyApi]_vars
 Bounded == apis <= 2 /\ Len(conf.startup) + Len(conf.cleanup) <= 3 /\ busy <= 1 /\ daemons <= 1
 BoundedQ == apis <= 1 /\ Len(conf.startup) + Len(conf.cleanup) <= 1 /\ busy <= 1 /\ watch <= 1 /\ daemons <= 1
